@@ -28,7 +28,7 @@ CONSTANTS Kinds,        \* font kinds explored: subset of FontKinds below
           NameMemo,     \* TRUE: the library remembers that it already looked for the name table (repair of F6)
           Emit
 
-FontKinds == {"good", "noname", "badlabel", "badglyph", "compressed", "awami", "badsilf", "nocmap", "nogloc", "badlz4", "badlz4s", "hiddenfeat", "name1"}
+FontKinds == {"good", "noname", "badlabel", "badglyph", "compressed", "awami", "badsilf", "nocmap", "nogloc", "badlz4", "badlz4s", "hiddenfeat", "name1", "badfeat", "badfeat2", "badsill"}
 PreloadGlyphs(o) == (o \div 2) % 2 = 1
 CacheCmap(o)     == (o \div 4) % 2 = 1
 PreloadAll(o)    == PreloadGlyphs(o) /\ CacheCmap(o)
